@@ -8,9 +8,13 @@ Exit codes used by callers: 0 held, 1 violation (with VIOLATION line), 2 tool er
 import json, os, re, subprocess, sys, time, shutil, hashlib, concurrent.futures
 
 VERIF = os.path.dirname(os.path.dirname(os.path.abspath(__file__)))
-HARNESS = os.path.join(VERIF, "harness")
 SPEC = os.path.join(VERIF, "spec")
-WORK = os.path.join(VERIF, "work")
+# Evaluation of a seeded change on private copies (bin/seedeval): VERIF_ALT_ROOT names a scratch directory that holds a
+# copy of the harness (its path dependency pointing at a patched copy of /repo) and receives work files, evidence and
+# replay files, so that neither /repo nor /verif's own results are touched.  Unset in every registered command.
+OUT_ROOT = os.environ.get("VERIF_ALT_ROOT") or VERIF
+HARNESS = os.path.join(OUT_ROOT, "harness")
+WORK = os.path.join(OUT_ROOT, "work")
 UVH = os.path.join(HARNESS, "target", "debug", "uvh")
 JAVA_OPTS = "-Xss1g -Dtlc2.tool.queue.IStateQueue=StateDeque"
 TLA_JAR = "/opt/veriftools/tla/tla2tools.jar"
@@ -335,7 +339,7 @@ def extract_run(trace, lineno):
 
 
 def write_replay(prop, name, meta, lines):
-    d = os.path.join(VERIF, "replays", prop)
+    d = os.path.join(OUT_ROOT, "replays", prop)
     os.makedirs(d, exist_ok=True)
     path = os.path.join(d, name + ".json")
     with open(path, "w") as f:
@@ -344,10 +348,10 @@ def write_replay(prop, name, meta, lines):
 
 
 def write_evidence(prop, tier, seed, level, coverage, wall, violations, assumptions):
-    os.makedirs(os.path.join(VERIF, "evidence"), exist_ok=True)
+    os.makedirs(os.path.join(OUT_ROOT, "evidence"), exist_ok=True)
     ev = {"property_id": prop, "tier": tier, "seed": seed, "level": level, "coverage": coverage,
           "assumptions": assumptions, "wall_s": round(wall, 2), "violations": violations}
-    with open(os.path.join(VERIF, "evidence", prop + ".json"), "w") as f:
+    with open(os.path.join(OUT_ROOT, "evidence", prop + ".json"), "w") as f:
         json.dump(ev, f, indent=1)
 
 
